@@ -1214,6 +1214,17 @@ class GateStage(Stage):
         self.q: deque = deque()
         self.n_pass = self.n_rej = 0
         self.toggles = 0
+        # the schedule as the statement of intent: open at t iff t lies in some [open, close); transitions in the
+        # order the documented API creates them (per interval: open, then close) for the sequential reading
+        self.initial_open = self.is_open
+        self.iv = [(tns(cfg, a), tns(cfg, b)) for a, b in cfg["schedule"]]
+        self.tr = sorted([(lo, 2 * i, True) for i, (lo, _) in enumerate(self.iv)]
+                         + [(hi, 2 * i + 1, False) for i, (_, hi) in enumerate(self.iv)])
+        ivs = sorted(self.iv)
+        if any(ivs[i][1] == ivs[i + 1][0] and ivs[i][0] < ivs[i][1] for i in range(len(ivs) - 1)):
+            ctx.hit("probe.gate_touching_intervals")
+        if any(ivs[i][1] > ivs[i + 1][0] for i in range(len(ivs) - 1)):
+            ctx.hit("probe.gate_overlapping_intervals")
 
     def entities(self):
         return [self.F]
@@ -1279,9 +1290,26 @@ class GateStage(Stage):
             ctx.hit("probe.gate_held")
         self._cross()
 
+    def should_be_open(self, t_ns):
+        """acceptable gate states at the end of instant t: the interval reading and, because overlapping intervals
+        are not defined anywhere, also the sequential reading (apply every transition up to t in creation order)"""
+        if not self.tr or t_ns < self.tr[0][0]:
+            return {self.initial_open}
+        union = any(lo <= t_ns < hi for lo, hi in self.iv)
+        seq = self.initial_open
+        for t, _, opens in self.tr:
+            if t > t_ns:
+                break
+            seq = opens
+        return {union, seq}
+
     def on_time_advance(self, prev_ns):
         if self.q:
             self.n_waited += 1
+        if self.q and not self.is_open and self.should_be_open(prev_ns) == {True}:
+            raise V("strand", self.cls, "closed-inside-a-scheduled-open-interval",
+                    f"t={prev_ns}ns: {len(self.q)} queued behind a closed gate although the schedule "
+                    f"{self.cfg['schedule']} has the gate open at this instant")
         if self.q and self.is_open:
             raise V("strand", self.cls, "open-gate-with-backlog", f"t={prev_ns}ns: {len(self.q)} queued, gate open")
 
